@@ -26,6 +26,10 @@ SEEDS = {
  "C05-reducechunks":  ("/tmp/seed_C05/mut1",  "C05", "foam.c:foamSIntReduce splits a 64-bit integer into 2 chunks instead of 3", "a machine-integer constant >= 2^62 saved to .ao at -Q2 or higher"),
  "C05-arlongname":    ("/tmp/seed_C05/mut2",  "C05", "archive.c:arRdItemArch parses the /K long-name offset from the wrong position", "an .al with two or more members whose names exceed 15 characters"),
  "C07-semicolons":    ("/tmp/seed_C07/mut1",  "C07", "linear.c:linXSep runs off the token list", "a source whose whole token stream is ';' tokens"),
+ "C10-mixedsize":     ("/tmp/seed_C10/mut1",  "C10", "store.c:pieceGetMixed sizes a new frontier section with one tag byte instead of one per quantum", "a mixed-size request that opens a new section whose page-rounding slack is smaller than the quantum count (first: 56800..57056 bytes; every size above 1 MB)"),
+ "C10-rotatedown":    ("/tmp/seed_C10/mut2",  "C10", "btree.c:btreeRotateDown does not move the last branch of an interior sibling (free-piece index of the allocator)", "more than 512 distinct free mixed sizes at once (three-level tree), then a delete that rotates at the root"),
+ "C16-nonascii":      ("/tmp/seed_C16/mut1",  "C16", "genc.c:gc0InitSpecialChars passes bytes >= 0x80 through into C identifiers", "an Aldor name with an escaped non-ASCII byte (x_\\xC3_\\x97y); gcc rejects the generated C"),
+ "C16-splitloop":     ("/tmp/seed_C16/mut2",  "C16", "genc.c:gc0ExternDecls split loop subtracts the wrong counter and never terminates", "-Csmax=N with more than N file-level statements"),
  "C07-elseifeof":     ("/tmp/seed_C07/mut2",  "C07", "include.c:inclLine misses the FormerlyActiveIf state at end of file", "EOF without #endif after a taken branch and a later #elseif"),
 }
 
@@ -34,7 +38,7 @@ def load_results():
     res = {}
     for root, mp in (("/tmp/seeds", {}), ("/tmp/seeds2", {"C04/mut3": "/tmp/seed_C04b/mut1", "C04/mut4": "/tmp/seed_C04b/mut2",
                                                           "C11/mut3": "/tmp/seed_C11b/mut1", "C11/mut4": "/tmp/seed_C11b/mut2"}),
-                     ("/tmp/seeds3", None), ("/tmp/seeds4", None), ("/tmp/seeds5", None)):
+                     ("/tmp/seeds3", None), ("/tmp/seeds4", None), ("/tmp/seeds5", None), ("/tmp/seeds6", None)):
         for f in sorted(glob.glob(os.path.join(root, "results_*.json"))):
             for k, v in json.load(open(f)).items():
                 pid, m = k.split("/")
@@ -48,7 +52,7 @@ def load_results():
 
 def load_verify():
     out = {}
-    for f in ("/tmp/seeds_verify/summary.txt", "/tmp/seeds_verify2/summary.txt"):
+    for f in ("/tmp/seeds_verify/summary.txt", "/tmp/seeds_verify2/summary.txt", "/tmp/seeds_verify3/summary.txt"):
         if os.path.exists(f):
             for ln in open(f):
                 m = re.match(r"(\w+)_(mut\d) build=(\d+) demo_clean_exit=(\d+) demo_mut_exit=(\d+) suite_PASS=(\d+) suite_FAIL=(\d+)", ln)
